@@ -287,7 +287,7 @@ def handle (line : String) : String :=
                             ("conforms", conforms o.additionalProperties o.fallBackOnDefault cs ty d),
                             ("scope", Json.mkObj [("acc", ty.acc), ("nouq", ty.nouq), ("efrag", ty.efrag),
                                ("scope", ty.scope), ("sch", ty.sch), ("cfrag", ty.cfrag), ("nofloat", ty.noFloat),
-                               ("json", d.json), ("wf", d.wf), ("sane", d.sane)]),
+                               ("json", d.json), ("jsonx", d.jsonX), ("wf", d.wf), ("sane", d.sane)]),
                             ("violations", if inE then errsJson (violations cs ty d) else Json.null),
                             ("image", if ty.efrag && ty.scope then valJson (image ty d) else Json.null)])
       | "roundtrip" => do
